@@ -79,7 +79,7 @@ impl ThreadKey {
 		// safety: if this code changes, check to ensure the requirement for
 		//         the Drop implementation is still true
 		KEY.with(|key| {
-			key.try_lock().then_some(Self {
+			key.try_lock().then(|| Self {
 				phantom: PhantomData,
 			})
 		})
